@@ -307,7 +307,7 @@ def _mk_entries(eng, st, n, b):
     return ents
 
 
-def _install_readdir(ctx, eng, entries):
+def _install_readdir(ctx, eng, entries, failing_entry=False):
     S = eng.add_summary
 
     def s_filename(eng, st, callee, args, dty):
@@ -315,7 +315,8 @@ def _install_readdir(ctx, eng, entries):
         return [Outcome(ok(p.attrs["name"]), events=[Event("filename", [], "ok")]),
                 Outcome(err("anyhow::Error"), events=[Event("filename", [], "err")])]
     S(r"^filename$", s_filename)
-    S(r"^ls_file_dir$", lambda e, st, c, a, d: [Outcome(ok(OpaqueV("ReadDir", None, {"items": [AggV("Result", 0, [x], "Ok") for x in entries]})), events=[Event("read_dir", [], "ok")]),
+    bad = [AggV("Result", 1, [OpaqueV("std::io::Error", "readdir_entry_error")], "Err")] if failing_entry else []
+    S(r"^ls_file_dir$", lambda e, st, c, a, d: [Outcome(ok(OpaqueV("ReadDir", None, {"items": [AggV("Result", 0, [x], "Ok") for x in entries] + list(bad)})), events=[Event("read_dir", [], "ok")]),
                                                  Outcome(err("anyhow::Error"), events=[Event("read_dir", [], "err")])])
     front = lambda rx, h: eng.add_summary(rx, h, front=True)
     front(r"^<(std::path::)?PathBuf as Deref>::deref$", lambda e, st, c, a, d: Outcome(a[0]))
@@ -407,6 +408,7 @@ def lemma_next_backup_num(ctx):
                       p.pc, N > v.t)
         ctx.lemma(eng2, "C09: backup numbers start at 1", p.pc, N >= 1)
     (ctx.passed if big else ctx.fail)("witness: next_backup_num with recognised siblings", "")
+    _scan_error_lemma(ctx, "next_backup_num")
     ctx.bounds = ("directories of %d arbitrary sibling names (<= 10 characters) besides the file, plus %d siblings with arbitrary recognised numbers in 0..=u64::MAX; "
                   "UTF-8 names (non-UTF-8 siblings: separate lemma)" % (n_ent, n_ent + 1))
 
@@ -435,7 +437,36 @@ def lemma_has_backup(ctx):
         ctx.lemma(eng, "C09: auto mode sees a backup whenever a sibling <name>.~N~ exists", p.pc, z3.Implies(z3.Or(*specs), p.ret.fields[0].t))
         ctx.lemma(eng, "C09: auto mode makes a backup exactly when a backup of that name already exists", p.pc, z3.Implies(p.ret.fields[0].t, z3.Or(*specs)),
                   key="backup:prefix-match", info={"note": "unrelated 'a.txt.~5~' counts as a backup of 'a'"})
+    _scan_error_lemma(ctx, "has_backup")
     ctx.bounds = "directories of %d arbitrary sibling names" % n_ent
+
+
+def _scan_error_lemma(ctx, fname):
+    """the sibling scan with one unreadable directory entry (readdir failing midway): the scan must fail -- answering
+    'no backup' / 'no number taken' instead lets rename() replace an existing backup"""
+    eng = ctx.engine("libxcp", loop_bound=4, timeout_s=600)
+    install_backup_env(ctx, eng)
+    st = State()
+    b = View.fresh("base", 4, st, 1)
+    entries = _mk_entries(eng, st, 1, b)
+    _install_readdir(ctx, eng, entries, failing_entry=True)
+    num = lambda e, s2, c, a, d: [Outcome(AggV("Option", 1, [e.fresh_int(s2, "u64", "backup_no")], "Some")), Outcome(AggV("Option", 0, [], "None"))]
+    eng.add_summary(r"^is_num_backup::<", num, front=True)
+    eng.add_summary(r"^is_num_backup$", num, front=True)
+    paths = eng.run(fn_named(eng.funcs, fname).name, [RefV(Cell(OpaqueV("Path", "file", {"name": SStrV(b)})))], st)
+    ctx.paths += len(paths)
+    for p in paths:
+        if p.status == "panic" or any(is_errev(e) for e in p.trace):
+            continue
+        if p.status != "return":
+            ctx.fail("%s: path ends in return" % fname, "%s %s" % (p.status, p.msg))
+            continue
+        ok_early = fname == "has_backup" and is_ok(p.ret) and z3.is_true(z3.simplify(p.ret.fields[0].t))
+        if is_err(p.ret) or ok_early:
+            ctx.passed("C04/C09: a directory entry that cannot be read makes the sibling scan fail (it is not taken for 'no backup there')")
+        else:
+            ctx.fail("C04/C09: a directory entry that cannot be read makes the sibling scan fail (it is not taken for 'no backup there')",
+                     "%s returned %r with an unreadable entry in the listing" % (fname, p.ret), key="backup:readdir-error-swallowed")
 
 
 def lemma_backup_path(ctx):
